@@ -329,7 +329,7 @@ class Gen:
                     if s in sp.supers[c]:
                         continue
                     self.emit(['rmsuper', c, s])
-            elif x < 0.42:
+            elif x < 0.40:
                 name = r.choice(FEAT_NAMES)
                 if any(d['name'] == name for d in sp.feats[c]):
                     continue
@@ -337,33 +337,37 @@ class Gen:
                 many = r.random() < 0.4
                 self.emit(['addfeat', c, name, r.randint(1, nc) if ref else 0, 1 if many else 0,
                            -1 if ref else r.choice([0, 0, 5]), r.choice(['append', 'append', 'extend'])])
-            elif x < 0.52:
-                if sp.feats[c] and r.random() < 0.9:
+            elif x < 0.49:
+                if sp.feats[c]:
                     self.emit(['rmfeat', c, r.choice(sp.feats[c])['name']])
+                elif r.random() < 0.25:
+                    self.emit(['rmfeat', c, r.choice(FEAT_NAMES)])     # not declared: KeyError, nothing changes
                 else:
-                    name = r.choice(FEAT_NAMES)
-                    self.emit(['rmfeat', c, name])
-            elif x < 0.54:
+                    continue
+            elif x < 0.505:
                 self.emit(['clearfeats', c])
-            elif x < 0.60:
+            elif x < 0.56:
                 name = r.choice(OP_NAMES)
                 if name in sp.ops[c]:
                     continue
                 self.emit(['addop', c, name, r.choice([[], [['a', 1, 'int']], [['a', 1, 'int'], ['d', 0, 'str']]]),
                            r.choice(['append', 'extend'])])
-            elif x < 0.64:
+            elif x < 0.60:
                 if sp.ops[c]:
                     self.emit(['rmop', c, r.choice(sp.ops[c])])
-                else:
+                elif r.random() < 0.2:
                     self.emit(['clearops', c])
-            elif x < 0.76 or not sp.inst:
+                else:
+                    continue
+            elif x < 0.70 or not sp.inst:
                 self.emit(['newinst', c])
             else:
                 i = r.randrange(len(sp.inst))
                 y = r.random()
-                name = r.choice(NAMES)
+                visible = [m for m in NAMES if sp.decls(sp.inst[i], m)]
+                name = r.choice(visible) if (visible and r.random() < 0.7) else r.choice(NAMES)
                 D = sp.decls(sp.inst[i], name)
-                if y < 0.5 or not D:
+                if y < 0.4 or not D:
                     self.emit(['get', i, name])
                 else:
                     d = D[0]
@@ -503,7 +507,12 @@ def run(ctx, out):
             stats['samples'].append(case)
     # histories that install the replacement: one isolated worker process
     if deferred:
-        answers = run_worker([{'history': c['history'], 'names': NAMES} for c in deferred], intern)
+        nworkers = min(len(deferred), 12 if thorough else 5)
+        chunks = [deferred[k::nworkers] for k in range(nworkers)]
+        deferred = [c for ch in chunks for c in ch]
+        answers = []
+        for ch in chunks:       # each worker starts without the replacement: several installations are observed
+            answers += run_worker([{'history': c['history'], 'names': NAMES} for c in ch], intern)
         for case, r in zip(deferred, answers):
             h = case['history']
             case = dict(case, init_flag=bool(r['flag_before']))
